@@ -1,0 +1,61 @@
+//! Verification-only observation points (`cfg(folo_verif)`), used by the model-checking harnesses
+//! in `/verif`. With the cfg off this module does not exist and no call site is compiled.
+//!
+//! The harness installs plain function pointers. The hooks identify an event by the address of
+//! its storage and never dereference it, so they are safe to call after ownership of the event
+//! has been handed to the other endpoint.
+
+#![allow(missing_docs, missing_debug_implementations, unreachable_pub, clippy::exhaustive_structs, reason = "verification-only")]
+
+use std::sync::OnceLock;
+
+/// Field identifiers passed to [`Hooks::field`].
+pub const FIELD_AWAITER: u8 = 1;
+pub const FIELD_VALUE: u8 = 2;
+
+#[derive(Clone, Copy)]
+pub struct Hooks {
+    /// Storage for an event at this address was just initialised.
+    pub created: fn(usize),
+    /// An endpoint operation on the event at this address begins (any access, incl. atomics).
+    pub touch: fn(usize),
+    /// A non-atomic field of the event at this address is about to be written/moved/dropped.
+    pub field: fn(usize, u8),
+    /// The storage of the event at this address is being released.
+    pub release: fn(usize),
+}
+
+static HOOKS: OnceLock<Hooks> = OnceLock::new();
+
+/// Installs the hooks; the first installation wins for the lifetime of the process.
+pub fn install(hooks: Hooks) {
+    let _ = HOOKS.set(hooks);
+}
+
+#[inline]
+pub(crate) fn created<T>(event: *const T) {
+    if let Some(h) = HOOKS.get() {
+        (h.created)(event as usize);
+    }
+}
+
+#[inline]
+pub(crate) fn touch<T>(event: *const T) {
+    if let Some(h) = HOOKS.get() {
+        (h.touch)(event as usize);
+    }
+}
+
+#[inline]
+pub(crate) fn field<T>(event: *const T, which: u8) {
+    if let Some(h) = HOOKS.get() {
+        (h.field)(event as usize, which);
+    }
+}
+
+#[inline]
+pub(crate) fn release<T>(event: *const T) {
+    if let Some(h) = HOOKS.get() {
+        (h.release)(event as usize);
+    }
+}
